@@ -207,7 +207,7 @@ Definition fmtparse_case (x : sx) : sx :=
   | Lst [w; Lst fs; Lst vs; ex; ex2] =>
     match decode_list decode_func fs, decode_list decode_str vs, dec_fexpr ex, dec_fexpr ex2 with
     | Some funcs, Some vars, Some e, Some e2 =>
-      let E := {| e_funcs := funcs; e_vars := vars; e_tyerr := fun _ _ _ => false; e_fix_slice := true |} in
+      let E := {| e_funcs := funcs; e_vars := vars; e_arity := []; e_tyerr := fun _ _ _ => false; e_fix_slice := true |} in
       let toks := toks_of_pieces (fmt_expr current_fixes 0 e) in
       let wssb := sym_is w "true" in
       let st0 := init_state (toks ++ [mk T_NL]) in
